@@ -169,7 +169,7 @@ def getAxesAligned (arrays : List (List Axis)) : Except Err (List Axis) :=
       let c ← acc
       let common := match c with
         | none => ax
-        | some c => if c.size == 1 && ax.size > 1 then ax else c
+        | some c => if c.size == 1 && ax.size != 1 then ax else c
       if !(ax.size == 1 || ax.labels == common.labels) then .error .value else pure (some common)
     match having.foldl step (.ok none) with
     | .ok (some c) => .ok c
